@@ -421,12 +421,16 @@ func keyExchange(klen int, ida, idb []byte, pri *PrivateKey, pub *PublicKey, rpr
 	zero := new(big.Int)
 	if vx.Cmp(zero) == 0 || vy.Cmp(zero) == 0 {
 		err = errors.New("V is infinite")
+		return
 	}
 	pzb := pub
 	if !thisISA {
 		pzb = &pri.PublicKey
 	}
 	zb, err := ZA(pzb, idb)
+	if err != nil {
+		return
+	}
 	k, ok := kdf(klen, vx.Bytes(), vy.Bytes(), za, zb)
 	if !ok {
 		err = errors.New("kdf: zero key")
